@@ -111,7 +111,7 @@ def build(tier, known):
         lookup.append((idx, fn, refname))
         if fn == 'validate_regex_24':
             # the {0,127} counters need segments of 128/129 characters: long inputs with a constant prefix and a symbolic tail
-            for n in (127, 128, 129, 130):
+            for n in ((128, 129) if tier == 'quick' else (127, 128, 129, 130)):
                 hs.append(E2Spec(f'e2_c19_e{idx}_re{k}_long_n{n}', 'C19Validator',
                                  dict(fn='regex::' + fn, n=n, entry=idx, fixed_prefix=[0x61, 124], dfa=dict(cls=d['cls'], trans=d['trans'], accept=d['accept'], dead=d['dead']), _crates=['spec']),
                                  functions=[f'regex::{fn}', 'regex::validate_regex_8 (called per path segment)'],
@@ -122,6 +122,8 @@ def build(tier, known):
             nmax = E2_VALIDATORS[fn][tier]
             pairs.append((idx, fn, 'r#"' + rx + '"#', m.group(4)))
             for n in range(0, nmax + 1):
+                if tier == 'quick' and fn == 'validate_regex_15' and n == 14:
+                    continue      # 2^n paths: 13 and 15 (the shortest member has 15 bytes) are kept in the quick tier
                 hs.append(E2Spec(f'e2_c19_e{idx}_re{k}_n{n}', 'C19Validator',
                                  dict(fn='regex::' + fn, n=n, entry=idx, dfa=dict(cls=d['cls'], trans=d['trans'], accept=d['accept'], dead=d['dead']), _crates=['spec']),
                                  functions=[f'regex::{fn} (+ its closures)'],
